@@ -412,6 +412,10 @@ func (w *c12World) collect() [][2]int {
 }
 
 func runC12(c *core.Ctx) {
+	if c.T.Bias(1, 12, "multi-two-muxes") {
+		runC12MultiTwo(c)
+		return
+	}
 	if c.T.Bias(1, 2, "concurrent") {
 		c.Knob("part", "concurrent")
 		runC12Conc(c)
